@@ -9,6 +9,39 @@ def norm(callee):
     return _CLOS.sub("{closure}", strip_generics(callee)).strip()
 
 
+# rustc prints *trimmed* paths: a name that is unique among the crates in scope loses its module path (`String::len` instead of
+# `std::string::String::len`), so how a library function is spelled depends on what else the crate under analysis imports.
+# Every equivalent spelling is tried against the model patterns.
+_ALIASES = [
+    ("String::", "std::string::String::", "alloc::string::String::"),
+    ("Vec::", "std::vec::Vec::", "alloc::vec::Vec::"),
+    ("Option::", "std::option::Option::", "core::option::Option::"),
+    ("Result::", "std::result::Result::", "core::result::Result::"),
+    ("slice::", "core::slice::", "std::slice::"),
+    ("str::", "core::str::", "std::str::"),
+    ("Box::", "std::boxed::Box::", "alloc::boxed::Box::"),
+    ("mem::", "std::mem::", "core::mem::"),
+    ("cmp::", "std::cmp::", "core::cmp::"),
+    ("Ordering::", "std::cmp::Ordering::", "core::cmp::Ordering::"),
+    ("BTreeMap::", "std::collections::BTreeMap::", "alloc::collections::BTreeMap::", "std::collections::btree_map::BTreeMap::"),
+    ("BTreeSet::", "std::collections::BTreeSet::", "alloc::collections::BTreeSet::", "std::collections::btree_set::BTreeSet::"),
+    ("array::", "core::array::", "std::array::"),
+    ("num::", "core::num::", "std::num::"),
+    ("char::", "core::char::", "std::char::"),
+]
+
+
+def spellings(n):
+    out = [n]
+    for group in _ALIASES:
+        for g in group:
+            if n.startswith(g):
+                # only when the prefix is the whole leading path (`Vec::` must not match `MyVec::`): startswith on the full name is enough
+                out += [h + n[len(g):] for h in group if h != g]
+                return out
+    return out
+
+
 class Models:
     def __init__(self):
         self.pre, self.post, self.consts = [], [], []
@@ -33,22 +66,24 @@ class Models:
     def lookup(self, callee):
         c = self._cache.get(callee, 0)
         if c != 0: return c
-        n = norm(callee)
         r = None
-        for rx, h in self.pre:
-            if rx.search(n):
-                r = h; break
+        for n in spellings(norm(callee)):
+            for rx, h in self.pre:
+                if rx.search(n):
+                    r = h; break
+            if r is not None: break
         self._cache[callee] = r
         return r
 
     def lookup_fallback(self, callee):
         c = self._fcache.get(callee, 0)
         if c != 0: return c
-        n = norm(callee)
         r = None
-        for rx, h in self.post:
-            if rx.search(n):
-                r = h; break
+        for n in spellings(norm(callee)):
+            for rx, h in self.post:
+                if rx.search(n):
+                    r = h; break
+            if r is not None: break
         self._fcache[callee] = r
         return r
 
